@@ -7,6 +7,9 @@ use rtcp_types::*;
 use std::panic::{catch_unwind, AssertUnwindSafe};
 
 pub fn check(w: &J) -> Result<(), String> {
+    if w.str("kind") == "misc" {
+        return crate::props3::misc().map(|_| ());
+    }
     let prop = w.str("prop");
     let r = catch_unwind(AssertUnwindSafe(|| check_inner(&prop, w)));
     match r {
@@ -37,6 +40,7 @@ fn check_inner(prop: &str, w: &J) -> Result<(), String> {
         }
         "C16" => c16(&Cfg::from_json(w.get("cfg").unwrap_or(&J::Null))),
         "C02" | "C03" | "C04" | "C05" => roundtrip(&Cfg::from_json(w.get("cfg").unwrap_or(&J::Null))),
+        "C20" => crate::props3::c20(&Cfg::from_json(w.get("cfg").unwrap_or(&J::Null))),
         "C14" => c14(&Cfg::from_json(w.get("cfg").unwrap_or(&J::Null))),
         "C19" => c19(w),
         "C08" => crate::props2::c08(&w.bytes("bytes")),
